@@ -59,9 +59,18 @@ def gen_c03src():
         raise E.ExtractError('Blind and FIB clamp literals differ: the model has one `clamp`')
 
     u = flat(UTILS)
-    n_skip = len(re.findall(r'if\s*\(\s*checkEqualSmall\(\s*(?:nextBeliefProbability|prob)\s*,\s*0\.0\s*\)\s*\)\s*continue\s*;', u))
-    if n_skip < 2:
-        raise E.ExtractError('bestConservativeAction / bestPromisingAction: zero-probability skip not recognised')
+    # bestConservativeAction: what happens to an observation that cannot occur from the query belief
+    mc = E.find1(r'bestConservativeAction\(const M & pomdp.*?return std::make_tuple\(id, v\);', u, 'bestConservativeAction body')
+    cons = mc.group(0)
+    if re.search(r'if\s*\(\s*checkEqualSmall\(\s*nextBeliefProbability\s*,\s*0\.0\s*\)\s*\)\s*continue\s*;', cons):
+        cons_skips = True
+    elif re.search(r'if\s*\(\s*checkDifferentSmall\(\s*nextBeliefProbability\s*,\s*0\.0\s*\)\s*\)\s*nextBelief\s*/=\s*nextBeliefProbability\s*;', cons) \
+            and not re.search(r'continue\s*;', cons):
+        cons_skips = False
+    else:
+        raise E.ExtractError('bestConservativeAction: treatment of zero-probability observations not recognised')
+    mp = E.find1(r'bestPromisingAction\(const M & pomdp.*?return std::make_tuple\(bestAction, bestValue\);', u, 'bestPromisingAction body')
+    E.find1(r'if\s*\(\s*checkEqualSmall\(\s*prob\s*,\s*0\.0\s*\)\s*\)\s*continue\s*;', mp.group(0), 'bestPromisingAction zero-probability skip')
     E.find1(r'immediateRewards\.col\(a\)\s*\+=\s*pomdp\.getDiscount\(\)\s*\*\s*pomdp\.getTransitionFunction\(a\)\s*\*\s*bpAlpha\s*;', u, 'bestConservativeAction alpha')
     E.find1(r'bpAlpha\s*\+=\s*pomdp\.getObservationFunction\(a\)\.col\(o\)\.cwiseProduct\(\s*it->values\s*\)\s*;', u, 'bestConservativeAction per-observation term')
 
@@ -86,6 +95,8 @@ def blindStartIsMin : Bool := {bb(blind_is_min)}
 def fibStartIsMax : Bool := {bb(fib_is_max)}
 /-- {FIB}: reduction over next actions is `rowwise().maxCoeff()` -/
 def fibInnerIsMax : Bool := {bb(fib_inner_max)}
+/-- {UTILS}: bestConservativeAction leaves out (`continue`) observations of probability below 1e-6 from the query belief -/
+def consSkips : Bool := {bb(cons_skips)}
 /-- literal in `std::max(<clamp>, 1.0 - discount)` (same in both files) -/
 def clamp : Rat := {E.lean_rat(blind_clamp)}
 
